@@ -81,13 +81,19 @@ def build_pipeline(case, source):
     a = a.filter(batch_has_even_head, input_keys='a')
   if p['agg_a']:
     a = a.aggregate(targets.SumAgg(), input_keys='x', output_keys='sa')
+  from ml_metrics._src.aggregates import rolling_stats  # pylint: disable=g-import-not-at-top
   if p['shape'] == 'fused':
     if not p['agg_a']:
       a = a.assign('y', fn=col_double, input_keys='x').aggregate(targets.SumAgg(), input_keys=('x', 'y'), output_keys=('sb', 'nb'))
+    if p.get('inplace_agg'):
+      # a shipped metric whose state is updated in place (the user aggregates above return new state objects)
+      a = a.add_aggregate(fn=rolling_stats.Counter().as_agg_fn(), input_keys='x', output_keys='cx')
     return a
   b = T.new(name='B').assign('y', fn=col_double, input_keys='x')
   if p['agg_b']:
     b = b.aggregate(targets.SumAgg(), input_keys='y', output_keys='sb')
+    if p.get('inplace_agg'):
+      b = b.add_aggregate(fn=rolling_stats.Counter().as_agg_fn(), input_keys='y', output_keys='cy')
   return a.chain(b)
 
 
@@ -227,7 +233,8 @@ def _pipeline_case(draw, maxops, threads):
   nb = draw(st.integers(0, 8))
   data = [{'a': [draw(st.integers(0, 9)) for _ in range(draw(st.integers(1, 3)))]} for _ in range(nb)]
   shape = draw(st.sampled_from(['fused', 'chained']))
-  pipe = {'shape': shape, 'filter': draw(st.booleans()), 'agg_a': draw(st.booleans()), 'agg_b': draw(st.booleans())}
+  pipe = {'shape': shape, 'filter': draw(st.booleans()), 'agg_a': draw(st.booleans()), 'agg_b': draw(st.booleans()),
+          'inplace_agg': draw(st.booleans())}
   if shape == 'chained' and not (pipe['agg_a'] or pipe['agg_b']):
     pipe['agg_b'] = True
   return {'source': _source(draw, nb), 'data': data, 'pipeline': pipe, 'num_threads': draw(st.sampled_from(threads)),
